@@ -13,8 +13,10 @@ flag of input `i`.
                                            out.controlled_by = self.name
                                            self.set_control_active(True)
     HasOutputModule.deactivate_control():  if self.control_active: self.set_control_active(False)
-    HasControlledBy.self_controlled():     if self.controlled_by: self.controlled_by = 0
+    HasOutputModule.set_control_active(active):  self.control_active = active     # "to be overridden for switching hw control"
+    HasControlledBy.self_controlled():     if self.controlled_by:
                                                for deactivate in inputCallbacks.values(): deactivate(self.name)
+                                               self.controlled_by = 0            # (repaired code: after the loop)
     HasControlledBy.update_target(module, value):
         if self.controlled_by != module:
             deactivate_control = self.inputCallbacks.get(self.controlled_by)   # an EnumMember hashes like its
@@ -53,36 +55,62 @@ def emit (s : St) (e : Ev) : St := { s with evs := s.evs ++ [e] }
 /-- the registry of output `o`: the names of its inputs in registration order -/
 def inputsOf (cfg : Cfg) (o : Nat) : List Nat := (List.range cfg.n).filter (fun i => cfg.outOf i == o)
 
-/-- `deactivate_control` of input `i` -/
-def deactivate (i : Nat) (s : St) : St :=
-  if s.act i then emit { s with act := fun j => if j = i then false else s.act j,
-                                actP := fun j => if j = i then false else s.actP j } (.act i false) else s
+/-- what `set_control_active(active)` of an input does.  The mixin's method only marks the module
+(`self.control_active = active`); it is documented as "to be overridden for switching hw control", and switching hardware
+can fail: the driver's method marks the module (`super().set_control_active(active)`) and returns, or raises — before the
+flag was changed (hardware first) or after it (flag first).  An oracle, like every driver body. -/
+inductive SRes
+  | ok
+  | failBefore
+  | failAfter
+  deriving Repr, DecidableEq, Inhabited
 
-/-- the loop over an `inputCallbacks` registry (registration order), skipping `skip` -/
-def deactivateAll (skip : Option Nat) : List Nat → St → St
+/-- the outcomes of the `set_control_active` calls of ONE operation, by input and direction (every input is asked at most
+once per direction in one operation) -/
+abbrev Faults := Nat → Bool → SRes
+
+def noFaults : Faults := fun _ _ => .ok
+
+/-- `self.control_active = b` of input `i` -/
+def mark (cfg : Cfg) (i : Nat) (b : Bool) (s : St) : St :=
+  { s with act := fun j => if j = i then b else s.act j, actP := fun j => if j = i then false else s.actP j,
+           evs := if cfg.omitUnch && (s.act i == b) && !s.actP i then s.evs else s.evs ++ [.act i b] }
+
+/-- `set_control_active(b)` of input `i`; `ok = false`: the exception is on its way out of the operation -/
+def setAct (cfg : Cfg) (f : Faults) (i : Nat) (b : Bool) (s : St) : St :=
+  match f i b with
+  | .ok => mark cfg i b s
+  | .failBefore => { s with ok := false }
+  | .failAfter => { mark cfg i b s with ok := false }
+
+/-- `deactivate_control` of input `i` -/
+def deactivate (cfg : Cfg) (f : Faults) (i : Nat) (s : St) : St :=
+  if s.act i then setAct cfg f i false s else s
+
+/-- the loop over an `inputCallbacks` registry (registration order), skipping `skip`; an exception ends it -/
+def deactivateAll (cfg : Cfg) (f : Faults) (skip : Option Nat) : List Nat → St → St
   | [], s => s
-  | i :: is, s => deactivateAll skip is (if skip = some i then s else deactivate i s)
+  | i :: is, s =>
+    if !s.ok then s else deactivateAll cfg f skip is (if skip = some i then s else deactivate cfg f i s)
 
 /-- `out.controlled_by = c` -/
 def setCb (cfg : Cfg) (o : Nat) (c : Option Nat) (s : St) : St :=
   { s with cb := fun o' => if o' = o then c else s.cb o', cbP := fun o' => if o' = o then false else s.cbP o',
            evs := if cfg.omitUnch && s.cb o == c && !s.cbP o then s.evs else s.evs ++ [.cb o c] }
 
-/-- `set_control_active(True)` of input `k` -/
-def setActive (cfg : Cfg) (k : Nat) (s : St) : St :=
-  { s with act := fun j => if j = k then true else s.act j, actP := fun j => if j = k then false else s.actP j,
-           evs := if cfg.omitUnch && s.act k && !s.actP k then s.evs else s.evs ++ [.act k true] }
+/-- `activate_control` of input `k`: the others are switched off first; only when that went through the output is renamed
+and `k` switched on -/
+def activate (cfg : Cfg) (f : Faults) (k : Nat) (s : St) : St :=
+  let s1 := deactivateAll cfg f (some k) (inputsOf cfg (cfg.outOf k)) s
+  if !s1.ok then s1 else setAct cfg f k true (setCb cfg (cfg.outOf k) (some k) s1)
 
-/-- `activate_control` of input `k` -/
-def activate (cfg : Cfg) (k : Nat) (s : St) : St :=
-  let s1 := deactivateAll (some k) (inputsOf cfg (cfg.outOf k)) s
-  setActive cfg k (setCb cfg (cfg.outOf k) (some k) s1)
-
-/-- `self_controlled` of output `o` -/
-def selfControlled (cfg : Cfg) (o : Nat) (s : St) : St :=
+/-- `self_controlled` of output `o` (repaired code: the inputs are switched off first, then the output names itself) -/
+def selfControlled (cfg : Cfg) (f : Faults) (o : Nat) (s : St) : St :=
   match s.cb o with
   | none => s
-  | some _ => deactivateAll none (inputsOf cfg o) (setCb cfg o none s)
+  | some _ =>
+    let s1 := deactivateAll cfg f none (inputsOf cfg o) s
+    if !s1.ok then s1 else setCb cfg o none s1
 
 inductive Op
   | writeIn (k : Nat) (guarded : Bool)   -- client `change in_k:target`; the body calls activate_control (guarded: only if not active)
@@ -95,25 +123,29 @@ inductive Op
 
 def validIn (cfg : Cfg) (k : Nat) : Bool := decide (k < cfg.n) && decide (cfg.outOf k < cfg.nout)
 
-def step (cfg : Cfg) (s : St) : Op → St
+def step (cfg : Cfg) (f : Faults) (s : St) : Op → St
   | .writeIn k guarded =>
-    if validIn cfg k then (if guarded && s.act k then s else activate cfg k s) else { s with ok := false }
-  | .writeOut o => if o < cfg.nout then selfControlled cfg o s else { s with ok := false }
-  | .activate k => if validIn cfg k then activate cfg k s else { s with ok := false }
-  | .deactivate k => if validIn cfg k then deactivate k s else { s with ok := false }
-  | .selfControlled o => if o < cfg.nout then selfControlled cfg o s else { s with ok := false }
+    if validIn cfg k then (if guarded && s.act k then s else activate cfg f k s) else { s with ok := false }
+  | .writeOut o => if o < cfg.nout then selfControlled cfg f o s else { s with ok := false }
+  | .activate k => if validIn cfg k then activate cfg f k s else { s with ok := false }
+  | .deactivate k => if validIn cfg k then deactivate cfg f k s else { s with ok := false }
+  | .selfControlled o => if o < cfg.nout then selfControlled cfg f o s else { s with ok := false }
   | .updateTarget o k =>
     -- an output nobody registered at still has the class attribute `inputCallbacks = ()`: `().get` raises
     if o < cfg.nout && validIn cfg k && !(inputsOf cfg o).isEmpty then s else { s with ok := false }
 
-/-- one operation of a history: the update stream and the outcome flag are per operation -/
-def step1 (cfg : Cfg) (s : St) (op : Op) : St := step cfg { s with evs := [], ok := true } op
+/-- one operation of a history, with what the `set_control_active` methods do during it: the update stream and the outcome
+flag are per operation -/
+def step1 (cfg : Cfg) (s : St) (op : Op × Faults) : St := step cfg op.2 { s with evs := [], ok := true } op.1
 
 /-- states after each operation (the quiescent points) -/
-def run (cfg : Cfg) (s : St) (ops : List Op) : List St := Frappy.Scan.scan (step1 cfg) s ops
+def run (cfg : Cfg) (s : St) (ops : List (Op × Faults)) : List St := Frappy.Scan.scan (step1 cfg) s ops
 
 /-- state after a whole history -/
-def exec (cfg : Cfg) (s : St) (ops : List Op) : St := ops.foldl (step1 cfg) s
+def exec (cfg : Cfg) (s : St) (ops : List (Op × Faults)) : St := ops.foldl (step1 cfg) s
+
+/-- a history in which no `set_control_active` fails -/
+def plain (ops : List Op) : List (Op × Faults) := ops.map (fun op => (op, noFaults))
 
 def init : St := { cb := fun _ => none, act := fun _ => false }
 
